@@ -36,6 +36,14 @@ mod private {
             let offset = stream.tell();
             let mut serializer = Serializer::new(BlockCheck::Crc32);
             self.serialize_tail(&mut serializer)?;
+            // The size of a tail is stored on 16 bits in the SizedOffset pointing to it.
+            if serializer.len() > 0xFFFF {
+                return Err(std::io::Error::new(
+                    std::io::ErrorKind::InvalidData,
+                    "Tail block is too large (its size must fit in 16 bits)",
+                )
+                .into());
+            }
             let size = stream.write_serializer(serializer)?.into();
             Ok(SizedOffset { size, offset })
         }
